@@ -240,6 +240,17 @@ class Ctx:
                 if not first:
                     first["case"], first["v"] = case, v
                 raise
+            except (HarnessError, KeyboardInterrupt, hypothesis.errors.HypothesisException):
+                raise
+            except Exception as e:
+                # the oracle code itself tripped over what the code under test returned (malformed shape, type,
+                # state ...).  On every tree the checks were developed against this never happens; when it does, the
+                # most likely cause is a changed behaviour of the code under test, so it is reported with the case.
+                v = Violation("the check could not interpret the behaviour of the code under test: %s: %s"
+                              % (type(e).__name__, str(e)[:300]), traceback=traceback.format_exc(limit=-8))
+                if not first:
+                    first["case"], first["v"] = case, v
+                raise v from e
 
         try:
             test()
@@ -263,6 +274,12 @@ class Ctx:
             body(case)
         except Violation as v:
             self._record_violation(name, case, v)
+        except (HarnessError, KeyboardInterrupt):
+            raise
+        except Exception as e:
+            self._record_violation(name, case, Violation(
+                "the check could not interpret the behaviour of the code under test: %s: %s" % (type(e).__name__, str(e)[:300]),
+                traceback=traceback.format_exc(limit=-8)))
 
     def run_corpus(self, name, body):
         d = os.path.join(VERIF, "corpus", self.prop)
@@ -295,6 +312,13 @@ class Ctx:
                 body(case)
             except Violation as v:
                 self._record_violation(name, case, v)
+                return
+            except (HarnessError, KeyboardInterrupt):
+                raise
+            except Exception as e:
+                self._record_violation(name, case, Violation(
+                    "the check could not interpret the behaviour of the code under test: %s: %s" % (type(e).__name__, str(e)[:300]),
+                    traceback=traceback.format_exc(limit=-8)))
                 return
 
     def machine(self, name, factory, quick, thorough, steps_quick, steps_thorough, shrink=True):
